@@ -155,7 +155,9 @@ NOTES["C17"] = dict(
     text=("Lean theorems (see Props/C17.lean for the list proved at this commit): the CG and BiCGStab recurrences keep r_k = b - A x_k, the reported "
           "history is the residual norm of each iterate, the returned iterate is the last one and the loop stops at the first iterate below the "
           "scaled tolerance or at the limit; inner product and 2-norm over a NaN-extended scalar are non-finite iff an entry is; global "
-          "inner products equal sums of block inner products for every partition; the CG energy step is proved in C10 (cg_step_energy). "
+          "inner products equal sums of block inner products for every partition, and the whole distributed CG run (inner products = all-reduced "
+          "local inner products over any piece lengths, empty ranks included) equals the sequential run: iterates, history, iteration count "
+          "(Props/C17Par.lean: cg_distributed_eq_sequential, cg_partition_indep, bicgstab_distributed_eq_sequential); the CG energy step is proved in C10 (cg_step_energy). "
           "The real sequential and distributed solvers are run on SPD / non-symmetric diagonally dominant systems (exact start, b = 0, zero "
           "guess, tolerances, limits, layouts with empty ranks); every iterate is recovered by re-running with max_iter = k and the driver "
           "recomputes its true residual, evaluates the stop rule, compares with the Float model, and checks dot/norm on vectors with NaN/Inf. " 
